@@ -921,7 +921,7 @@ impl Property for C10 {
                     let stack = if direct {
                         Vec::new()
                     } else {
-                        gen_stack(src, &fb_box, kind, 3, true, 12, true)
+                        gen_stack(src, &fb_box, kind, 3, true, 12, true, false)
                     };
                     let m = StackModel::new(fb_box, kind, &stack);
                     let op = C10::gen_target_op(src, &m, si, stack.is_empty(), w as i32, h as i32);
@@ -931,7 +931,7 @@ impl Property for C10 {
                     let stack = if src.bool() {
                         Vec::new()
                     } else {
-                        gen_stack(src, &fb_box, kind, 2, true, 12, true)
+                        gen_stack(src, &fb_box, kind, 2, true, 12, true, false)
                     };
                     let m = StackModel::new(fb_box, kind, &stack);
                     let tk = m.top_kind();
